@@ -13,6 +13,7 @@ TRUST = ("Trusted base: rustc nightly MIR construction and Instance::try_resolve
 TECH = {
     "C01": "MIR who-may-write + failure/prune pairing on loop iterations + dominance of validated-insert by validate + sibling agreement + typestate",
     "C02": "MIR dominance/exclusion of the ref update by the threshold compare + decision tables of policy/ancestry arms + who-may-construct",
+    "C03": "MIR dominance of the threshold filter + provenance of candidate keys + decision table of the head-selection loop (structural clauses only)",
     "C04": "MIR dominance / must-pass-through of signature verification + who-may-write + decision tables + transactional effect analysis",
     "C05": "call-graph reachability + nondeterminism-source lint (hash iteration, clocks, env, rand) + container type facts + required comparator",
     "C06": "transactional effect analysis (interprocedural write/err dataflow summaries over MIR) for every Evaluate::apply",
@@ -47,7 +48,6 @@ def claim_text(pid):
 
 
 NOT_APPLICABLE = {
-    "C03": "vote arithmetic over arbitrary commit DAGs (merge-base results at run time); no structural rule bounds it and a frozen-shape check would be a text match",
     "C22": "associativity/commutativity/idempotence are equations over all values; needs algebraic proof or a solver, not a structural rule",
     "C23": "correctness of topological sort/prune/merge over every DAG is a graph-algorithm property of runtime data",
     "C25": "success-iff-target-reached is arithmetic on set cardinalities accumulated over an arbitrary event sequence",
